@@ -106,9 +106,8 @@ def locText (src : Loc → Str) (shortMsg : Str) (tl : Str) (l : Loc) : Str :=
   let t := far t "{info}".toList (if l.info = [] then shortMsg else l.info)
   far t "{code}".toList (readCode (src l) l.column (endlOf t))
 
-/-- `ErrorMessage::toString(verbose, templateFormat, templateLocation)`; `src l` = the (trimmed) source line
-    `readCode` finds for location `l` -/
-def toString (src : Loc → Str) (f : Finding) (verbose : Bool) (tf tl : Str) : Str :=
+/-- the first part of `toString`: the message template -/
+def mainText (src : Loc → Str) (f : Finding) (verbose : Bool) (tf : Str) : Str :=
   let idStr := if f.guideline = [] then f.id else f.guideline
   let sevS := if f.classification = [] then sevStr f.severity else f.classification
   let r := far tf "{id}".toList idStr
@@ -117,14 +116,19 @@ def toString (src : Loc → Str) (f : Finding) (verbose : Bool) (tf tl : Str) : 
   let r := far r "{cwe}".toList (natDec f.cwe)
   let r := far r "{message}".toList (if verbose then f.verboseMsg else f.shortMsg)
   let r := far r "{remark}".toList f.remark
-  let r := match f.stack.getLast? with
-    | some last =>
-      let r := far r "{callstack}".toList (callStackToString f.stack)
-      let r := far r "{file}".toList (toNative last.file)
-      let r := far r "{line}".toList (intDec last.line)
-      let r := far r "{column}".toList (natDec last.column)
-      far r "{code}".toList (readCode (src last) last.column (endlOf r))
-    | none => replaceMap noStackMap r
+  match f.stack.getLast? with
+  | some last =>
+    let r := far r "{callstack}".toList (callStackToString f.stack)
+    let r := far r "{file}".toList (toNative last.file)
+    let r := far r "{line}".toList (intDec last.line)
+    let r := far r "{column}".toList (natDec last.column)
+    far r "{code}".toList (readCode (src last) last.column (endlOf r))
+  | none => replaceMap noStackMap r
+
+/-- `ErrorMessage::toString(verbose, templateFormat, templateLocation)`; `src l` = the (trimmed) source line
+    `readCode` finds for location `l` -/
+def toString (src : Loc → Str) (f : Finding) (verbose : Bool) (tf tl : Str) : Str :=
+  let r := mainText src f verbose tf
   if tl ≠ [] ∧ 2 ≤ f.stack.length then r ++ f.stack.flatMap (fun l => '\n' :: locText src f.shortMsg tl l) else r
 
 /-! ## the static part of a template (`substituteTemplateFormatStatic`) -/
@@ -284,5 +288,30 @@ def Spec.renderLoc (src : Loc → Str) (shortMsg : Str) (segs : List Seg) (l : L
 def Spec.render (src : Loc → Str) (f : Finding) (verbose : Bool) (segsF segsL : List Seg) : Str :=
   Spec.renderMain src f verbose segsF ++
   (if flatten segsL ≠ [] ∧ 2 ≤ f.stack.length then f.stack.flatMap (fun l => '\n' :: Spec.renderLoc src f.shortMsg segsL l) else [])
+
+/-! ## hypotheses of the rendering theorem, as decidable predicates -/
+
+def openFree (s : Str) : Bool := s.all (fun c => c != '{')
+
+/-- every value `toString` substitutes *before* some other pass (everything but `{code}`, numbers and severity
+    names, which never hold a '{'): id/guideline, classification, message, remark, file names, location infos -/
+def fieldValues (f : Finding) (verbose : Bool) : List Str :=
+  [if f.guideline = [] then f.id else f.guideline, f.classification, if verbose then f.verboseMsg else f.shortMsg, f.remark] ++
+  f.stack.map (fun l => l.file) ++ f.stack.map (fun l => if l.info = [] then f.shortMsg else l.info)
+
+def valuesOK (f : Finding) (verbose : Bool) : Bool := (fieldValues f verbose).all openFree
+
+/-! ## the duplicate filter of `StdLogger::reportErr` (cli/cppcheckexecutor.cpp) -/
+
+/-- findings handed to the writer of the selected format: internal ones are consumed, a finding whose *text*
+    rendering was already shown is dropped (`mShownErrors`), whatever the output format is -/
+def stdLoggerGo (render : Finding → Str) : List Finding → List Str → List Finding
+  | [], _ => []
+  | f :: r, shown =>
+    if f.severity = 8 then stdLoggerGo render r shown
+    else if shown.contains (render f) then stdLoggerGo render r shown
+    else f :: stdLoggerGo render r (render f :: shown)
+
+def stdLogger (render : Finding → Str) (fs : List Finding) : List Finding := stdLoggerGo render fs []
 
 end Cppcheck.Template
